@@ -191,7 +191,12 @@ def operations(w):  # noqa: C901
         'tree_reduce': lambda: optree.tree_reduce(lambda a, x: (FAULT.point('reduce-f'), a)[1], t, 0, **kw),
         'tree_sum': lambda: optree.tree_sum(t, (), **kw),
         'tree_max': lambda: optree.tree_max(t, key=lambda x: (FAULT.point('key-f'), id(x))[1], **kw),
+        'tree_max-default': lambda: optree.tree_max(t, default=None, key=lambda x: (FAULT.point('key-f'), id(x))[1], **kw),
+        'tree_min-default': lambda: optree.tree_min(t, default=None, key=lambda x: (FAULT.point('key-f'), id(x))[1], **kw),
+        'tree_min': lambda: optree.tree_min(t, key=lambda x: (FAULT.point('key-f'), -id(x))[1], **kw),
         'tree_all': lambda: optree.tree_all(t, **kw),
+        'tree_any': lambda: optree.tree_any(t, **kw),
+        'tree_reduce-noinit': lambda: optree.tree_reduce(lambda a, x: (FAULT.point('reduce-f'), a)[1], t, **kw),
         'tree_flatten_one_level': lambda: optree.tree_flatten_one_level(t, **kw),
         'prefix_errors': lambda: optree.prefix_errors(t, r, **kw),
         'flatten_up_to': lambda: s.flatten_up_to(r),
@@ -237,6 +242,13 @@ def canon(x, depth=0):  # noqa: C901, PLR0911
     return type(x).__name__
 
 
+def fault_types(tier):
+    """Exception types injected: the harness's own class plus builtin types that library code commonly catches
+    for its own purposes (an `except ValueError:` around user callbacks would swallow a user's ValueError)."""
+    quick = [Boom, ValueError, TypeError, KeyError]
+    return quick if tier == 'quick' else [*quick, AttributeError, RuntimeError, IndexError, LookupError, OSError]
+
+
 def run_op(ctx, scenario, opname):  # noqa: C901, PLR0912
     w = World(scenario)
     op = operations(w)[opname]
@@ -260,12 +272,15 @@ def run_op(ctx, scenario, opname):  # noqa: C901, PLR0912
                       _refdiff(w, before, after))
         return
     ctx.outcome(f'K={min(K, 40)}')
-    for k in range(1, K + 1):
-        cs = dict(case, k=k, callback=names[k - 1])
+    for exc, k in ((e, k) for e in fault_types(ctx.tier) for k in range(1, K + 1)):
+        if exc is TypeError and names[k - 1] in ('key.__lt__', 'key.__eq__'):
+            continue  # the property excludes it: TypeError from a key comparison (tuple comparison in the fallback
+            # sort calls __eq__ before __lt__) means "incomparable keys"
+        cs = dict(case, k=k, callback=names[k - 1], exception=exc.__name__)
         ctx.count()
-        ctx.cls((scenario, opname, names[k - 1], sum(1 for n in names[:k] if n == names[k - 1])))
+        ctx.cls((scenario, opname, names[k - 1], sum(1 for n in names[:k] if n == names[k - 1]), exc.__name__))
         before = refcounts(w.tracked)
-        kind, val = run_with_fault(op, k)
+        kind, val = run_with_fault(op, k, exc)
         injected = FAULT.injected
         if injected is None:
             ctx.violation('nondeterministic-callback-count', f'{PROP}:harness', cs, f'fault {k} of {K} never fired')
